@@ -86,7 +86,9 @@ Definition spec_labels (R : reftable) (us : list (Z * Z * option Z)) : list Z :=
     match arg with
     | None => acc
     | Some a => match spec_target R offset op a with
-                | Some l => add_label l acc
+                | Some l =>
+                    (* 2.7 .. 3.5: `if label >= 0:` guards the append *)
+                    if tuple_ltb (r_version R) [3; 6] && (l <? 0) then acc else add_label l acc
                 | None => acc end
     end) us [].
 
